@@ -24,13 +24,15 @@ import (
 	"reflect"
 	"sort"
 	"strings"
+	"time"
 
 	"github.com/blinklabs-io/gouroboros/ledger"
 	"github.com/blinklabs-io/gouroboros/ledger/common"
 )
 
 func init() {
-	register(&Prop{ID: "C07", Gen: genC07, Run: runC07})
+	// generous per-op deadline: verdicts must not depend on machine load
+	register(&Prop{ID: "C07", Gen: genC07, Run: runC07, Timeout: 3 * time.Minute})
 	synthDijkstraAccepts = func(b []byte) bool {
 		_, err := ledger.NewBlockFromCbor(eraBlockType["dijkstra"], b, common.VerifyConfig{SkipBodyHashValidation: true})
 		return err == nil
